@@ -110,9 +110,30 @@ Definition send_raw (r : route) (sport dport : Z) (data : list (list Z)) (flags 
      if r.Capabilities()&stack.CapabilityChecksumOffload == 0 {
        xsum := r.PseudoHeaderChecksum(ProtocolNumber)
        for _, v := range data.Views() { xsum = header.Checksum(v, xsum) }
-       udp.SetChecksum(^udp.CalculateChecksum(xsum, length)) }
-     return r.WritePacket(hdr, data, ProtocolNumber, ttl) } *)
+       xsum = ^udp.CalculateChecksum(xsum, length)
+       if xsum == 0 {
+         // RFC 768: a computed checksum of zero is transmitted as all
+         // ones; zero means that no checksum was generated.
+         xsum = 0xffff }
+       udp.SetChecksum(xsum) }
+     return r.WritePacket(hdr, data, ProtocolNumber, ttl) }          (since /repo 723c609) *)
 Definition send_udp (r : route) (data : list (list Z)) (localPort remotePort : Z) : option (list Z) :=
+  let udp := zeros 8 in
+  let len := w16 (8 + vsize data) in
+  udp <- udp_encode udp (mkUDP localPort remotePort len 0) ;;
+  if rOffload r then Some udp else
+  let xsum := pseudoHeaderChecksum 17 (rLocal r) (rRemote r) in
+  let xsum := checksum_chunks data xsum in
+  c <- udp_calculateChecksum udp xsum len ;;
+  let xsum := lnot16 c in
+  let xsum := if xsum =? 0 then 65535 else xsum in
+  udp_setChecksum udp xsum.
+
+(* the text before 723c609 (kept only for EmitP.udp_zero_checksum_old_refuted): the last statement
+   of the checksum branch was
+       udp.SetChecksum(^udp.CalculateChecksum(xsum, length)) }
+   so a computed checksum of 0 left as 0 = "no checksum" *)
+Definition send_udp_old (r : route) (data : list (list Z)) (localPort remotePort : Z) : option (list Z) :=
   let udp := zeros 8 in
   let len := w16 (8 + vsize data) in
   udp <- udp_encode udp (mkUDP localPort remotePort len 0) ;;
@@ -192,8 +213,9 @@ Definition send_ping4 (code : Z) (data : list Z) : option (list Z * list Z) :=
      icmpv4.SetChecksum(0)
      icmpv4.SetChecksum(^header.Checksum(icmpv4, header.Checksum(data, 0)))
      return r.WritePacket(hdr, data.ToVectorisedView(), header.ICMPv4ProtocolNumber, r.DefaultTTL()) }
-   sendPing6 is the same text with the ICMPv6 constants (header 8 bytes, type 128): no pseudo-header.
-   [hl] = 6 / 8, [ty] = 8 / 128; an error return is [Some None] *)
+   [hl] = 6 (ICMPv4EchoMinimumSize), [ty] = 8 (ICMPv4Echo); an error return is [Some None].
+   (Before /repo 65b8ba4 sendPing6 was the same text with the ICMPv6 constants, header 8 bytes and
+   type 128 - hence the two parameters; see [ping6_send_old].) *)
 Definition ping_send (hl : nat) (ty ident : Z) (data : list Z) : option (option (list Z * list Z)) :=
   if (length data <? hl)%nat then Some None else
   data <- put16 data 4 ident ;;
@@ -204,6 +226,42 @@ Definition ping_send (hl : nat) (ty ident : Z) (data : list Z) : option (option 
   icmp <- icmp_setChecksum icmp 0 ;;
   icmp <- icmp_setChecksum icmp (lnot16 (checksum icmp (checksum data 0))) ;;
   Some (Some (icmp, data)).
+Definition ping4_send (ident : Z) (data : list Z) : option (option (list Z * list Z)) := ping_send 6 8 ident data.
+
+(* func sendPing6(r *stack.Route, ident uint16, data buffer.View) *tcpip.Error {
+     if len(data) < header.ICMPv6EchoMinimumSize { return tcpip.ErrInvalidEndpointState }
+     binary.BigEndian.PutUint16(data[header.ICMPv6MinimumSize:], ident)
+     hdr := ...; icmpv6 := header.ICMPv6(hdr.Prepend(header.ICMPv6EchoMinimumSize))
+     copy(icmpv6, data)
+     data = data[header.ICMPv6EchoMinimumSize:]
+     if icmpv6.Type() != header.ICMPv6EchoRequest || icmpv6.Code() != 0 { return tcpip.ErrInvalidEndpointState }
+     icmpv6.SetChecksum(0)
+     // The ICMPv6 checksum covers the IPv6 pseudo-header (RFC 4443 section 2.3).
+     xsum := header.PseudoHeaderChecksum(header.ICMPv6ProtocolNumber, r.LocalAddress, r.RemoteAddress)
+     xsum = header.ChecksumCombine(xsum, uint16(len(icmpv6)+len(data)))
+     xsum = header.Checksum(data, xsum)
+     icmpv6.SetChecksum(^header.Checksum(icmpv6, xsum))
+     return r.WritePacket(hdr, data.ToVectorisedView(), header.ICMPv6ProtocolNumber, r.DefaultTTL()) }
+   (since /repo 65b8ba4; ICMPv6MinimumSize = 4, ICMPv6EchoMinimumSize = 8, ICMPv6EchoRequest = 128,
+   ICMPv6ProtocolNumber = 58) *)
+Definition ping6_send (r : route) (ident : Z) (data : list Z) : option (option (list Z * list Z)) :=
+  if (length data <? 8)%nat then Some None else
+  data <- put16 data 4 ident ;;
+  icmp <- copy_into (zeros 8) 0 8 data ;;
+  data <- getFrom data 8 ;;
+  t <- icmp_type icmp ;; c <- icmp_code icmp ;;
+  if negb (t =? 128) || negb (c =? 0) then Some None else
+  icmp <- icmp_setChecksum icmp 0 ;;
+  let xsum := pseudoHeaderChecksum 58 (rLocal r) (rRemote r) in
+  let xsum := checksumCombine xsum (w16 (Z.of_nat (length icmp) + Z.of_nat (length data))) in
+  let xsum := checksum data xsum in
+  icmp <- icmp_setChecksum icmp (lnot16 (checksum icmp xsum)) ;;
+  Some (Some (icmp, data)).
+
+(* the text before 65b8ba4 (kept only for EmitP.ping6_no_pseudo_header_old_refuted): the checksum was
+       icmpv6.SetChecksum(^header.Checksum(icmpv6, header.Checksum(data, 0)))
+   i.e. sendPing4 with the ICMPv6 constants and no pseudo-header *)
+Definition ping6_send_old (ident : Z) (data : list Z) : option (option (list Z * list Z)) := ping_send 8 128 ident data.
 
 (* ======================= ICMPv6 / NDP ======================= *)
 (* func icmpChecksum(h header.ICMPv6, src, dst tcpip.Address, vv buffer.VectorisedView) uint16 {
@@ -330,12 +388,21 @@ Definition arp_request (linkAddr localAddr addr : list Z) : option (list Z) :=
      if e.handleLocal && r.LocalAddress != "" && r.LocalAddress == r.RemoteAddress { ...loop back... }
      eth := header.Ethernet(hdr.Prepend(header.EtheernetMinimumsize))
      ethHdr := &header.EthernetFields{DstAddr: r.RemoteLinkAddress, Type: protocol}
-     if r.LocalAddress != "" { ethHdr.SrcAddr = r.LocalLinkAddress } else { ethHdr.SrcAddr = e.addr }
+     if r.LocalLinkAddress != "" { ethHdr.SrcAddr = r.LocalLinkAddress } else { ethHdr.SrcAddr = e.addr }
      eth.Encode(ethHdr)
      if payload.Size() == 0 { return rawfile.NonBlockingWrite(e.fd, hdr.View()) }
      return rawfile.NonBlockingWrite2(e.fd, hdr.View(), payload.ToView()) }
-   handleLocal = false; [pkt] = hdr.View() ++ payload.ToView() as built by the network layer *)
+   (since /repo 8cee966) handleLocal = false; [pkt] = hdr.View() ++ payload.ToView() as built by
+   the network layer *)
 Definition eth_write (r : route) (epAddr : list Z) (protocol : Z) (pkt : list Z) : option (list Z) :=
+  let src := match rLocalLink r with [] => epAddr | _ => rLocalLink r end in
+  eth <- eth_encode (zeros 14) (mkEth src (rRemoteLink r) protocol) ;;
+  Some (eth ++ pkt).
+
+(* the text before 8cee966 (kept only for EmitP.eth_write_zero_src_old_refuted): the condition was
+     if r.LocalAddress != "" { ethHdr.SrcAddr = r.LocalLinkAddress } else { ethHdr.SrcAddr = e.addr }
+   so a route with a local address but no local link address (ipv6 LinkAddressRequest) copied "" *)
+Definition eth_write_old (r : route) (epAddr : list Z) (protocol : Z) (pkt : list Z) : option (list Z) :=
   let src := match rLocal r with [] => epAddr | _ => rLocalLink r end in
   eth <- eth_encode (zeros 14) (mkEth src (rRemoteLink r) protocol) ;;
   Some (eth ++ pkt).
@@ -473,7 +540,7 @@ Definition reencode_net (proto : Z) (offload : bool) (smac dmac esrc edst : list
            else if ip4Protocol d =? 1 then
              t <- icmp_type pl ;; c <- icmp_code pl ;; rest <- getFrom pl 4 ;;
              if t =? 0 then send_ping4 c rest
-             else id <- get16 pl 4 ;; flatten_ping (ping_send 6 8 id pl)
+             else id <- get16 pl 4 ;; flatten_ping (ping4_send id pl)
            else None) ;;
     w <- ipv4_write r (fst tp) (match snd tp with [] => [] | v => [v] end) (ip4Protocol d) (ip4TTL d) (ip4ID d - 1) ;;
     Some (fst w)
@@ -492,7 +559,7 @@ Definition reencode_net (proto : Z) (offload : bool) (smac dmac esrc edst : list
                else if t =? 129 then
                  h <- getN pl 0 8 ;; rest <- getFrom pl 8 ;;
                  pkt <- icmp6_echo_reply r h (match rest with [] => [] | v => [v] end) ;; Some (pkt, rest)
-               else id <- get16 pl 4 ;; flatten_ping (ping_send 8 128 id pl)) ;;
+               else id <- get16 pl 4 ;; flatten_ping (ping6_send r id pl)) ;;
         ipv6_write r (fst tp) (match snd tp with [] => [] | v => [v] end) 58 (ip6HopLimit d)
     else
       tp <- (if ip6NextHeader d =? 6 then reencode_tcp r esport edport pl
@@ -512,15 +579,16 @@ Definition reencode (link proto : Z) (offload : bool) (smac dmac esrc edst : lis
     inner <- getFrom f 14 ;;
     pkt <- reencode_net (ethType e) offload (pick smac (ethSrcAddr e)) (pick dmac (ethDstAddr e))
                         esrc edst esport edport inner ;;
-    (* the routes LinkAddressRequest builds by hand: ARP leaves LocalAddress "" (so fdbased uses its
-       own address); NDP sets LocalAddress but no LocalLinkAddress (so fdbased copies "") *)
+    (* the routes LinkAddressRequest builds by hand carry no LocalLinkAddress (ARP: only
+       RemoteLinkAddress; NDP: LocalAddress, RemoteAddress, RemoteLinkAddress), so fdbased uses its
+       own address; every other route has the NIC's link address as LocalLinkAddress (makeRoute) *)
     let is_arp_req := (ethType e =? 2054) && (match arp_decode inner with Some a => arpOp a =? 1 | None => false end) in
     let is_ns := (ethType e =? 34525) &&
                  (match ipv6_decode inner, get8 inner 40 with
                   | Some d, Some t => (ip6NextHeader d =? 58) && (t =? 135)
                   | _, _ => false end) in
     let r := mkRoute (if is_arp_req then [] else [0]) []
-                     (if is_ns then [] else pick smac (ethSrcAddr e)) (pick dmac (ethDstAddr e)) offload in
+                     (if is_arp_req || is_ns then [] else pick smac (ethSrcAddr e)) (pick dmac (ethDstAddr e)) offload in
     eth_write r (pick smac (ethSrcAddr e)) (ethType e) pkt
   else reencode_net proto offload smac dmac esrc edst esport edport f.
 
